@@ -113,12 +113,12 @@ def _atom(rng, mask=None):
         a["ver"] = [rng.choice(OPS) if rng.random() < 0.85 else rng.choice(ODD_OPS),
                     rng.choice(VERSIONS) if h() else _word(rng, _VER_CH, _VER_CH)]
     if mask & 4:
-        a["arch"] = [_signed(rng, ARCHS, _ARCH_CH) for _ in range(rng.choice([1, 1, 2, 2, 3, 3, 9, 17]))]
+        a["arch"] = [_signed(rng, ARCHS, _ARCH_CH) for _ in range(rng.choice([1, 1, 2, 2, 3, 3] * 4 + [9, 17]))]
     if mask & 8:
         # mostly 1-3 groups of 1-3 terms; sometimes many (a count passed where a flag was meant, a fixed-size
         # buffer, ... only show beyond some size)
-        a["restr"] = [[_signed(rng, PROFILES, _PROFILE_CH) for _ in range(rng.choice([1, 1, 2, 2, 3, 3, 9]))]
-                      for _ in range(rng.choice([1, 1, 1, 2, 2, 3, 3, 10, 12, 33]))]
+        a["restr"] = [[_signed(rng, PROFILES, _PROFILE_CH) for _ in range(rng.choice([1, 1, 2, 2, 3, 3] * 3 + [9]))]
+                      for _ in range(rng.choice([1, 1, 1, 2, 2, 3, 3] * 5 + [10, 12, 33]))]
     # insertion order of the keys of the relation dict handed to PkgRelation.str (indices into KEYS);
     # one atom in three is built in the parser's own order
     if rng.random() < 0.67:
